@@ -2,9 +2,23 @@
 import itertools
 import random as pyrandom
 
+import os
 from .common import RATE_UNIT
 from . import observe, walk
 from .scripted import run_scripted
+
+# the entry point the scenarios are replayed into: Gillespie_simple_contagion (C03) or, for the extra check X03, its legacy
+# wrapper Gillespie_Arbitrary (same signature, documented as "calls Gillespie_simple_contagion")
+ENTRY = os.environ.get("EON_VERIF_CONTAGION_ENTRY", "Gillespie_simple_contagion")
+
+
+def entry_call(EoN, *a, **kw):
+    if ENTRY == "Gillespie_simple_contagion":
+        return EoN.Gillespie_simple_contagion(*a, **kw)
+    import contextlib
+    import io
+    with contextlib.redirect_stdout(io.StringIO()):      # the legacy wrapper prints a deprecation notice on every call
+        return getattr(EoN, ENTRY)(*a, **kw)
 
 SG = {}   # scenario index -> {st: [(key, rate, st2)]}
 SCN = []
@@ -177,11 +191,11 @@ def run_scenario(task):
     KW = dict(spont_kwargs={"who": "spont"}, nbr_kwargs={"who": "nbr"}) if (scn["wmode"] == "function" and i % 2 == 0) else {}
 
     def fn_full():
-        sim = EoN.Gillespie_simple_contagion(G, H, J, dict(IC), rs, tmin=tmin, tmax=tmax, return_full_data=True, **KW)
+        sim = entry_call(EoN, G, H, J, dict(IC), rs, tmin=tmin, tmax=tmax, return_full_data=True, **KW)
         return observe.full_data_observation(sim, nodes)
 
     def fn_arr():
-        return [list(map(float, a)) for a in EoN.Gillespie_simple_contagion(G, H, J, dict(IC), rs, tmin=tmin, tmax=tmax, **KW)]
+        return [list(map(float, a)) for a in entry_call(EoN, G, H, J, dict(IC), rs, tmin=tmin, tmax=tmax, **KW)]
 
     def succ(st):
         return graph.get(st, [])
@@ -196,7 +210,7 @@ def run_scenario(task):
         T = tmin + (4.0 / r0 if r0 > 0 else 1.0)
         random.seed(seed)
         try:
-            sim = EoN.Gillespie_simple_contagion(G, H, J, dict(IC), rs, tmin=tmin, tmax=T, return_full_data=True, **KW)
+            sim = entry_call(EoN, G, H, J, dict(IC), rs, tmin=tmin, tmax=T, return_full_data=True, **KW)
             obs = observe.full_data_observation(sim, nodes)
         except Exception as ex:
             return {"error": ex}
